@@ -26,6 +26,7 @@ SerClause(r) ==
       pr  == IF r.fmt = "sm" THEN ParseSM(ps) ELSE ParseSSC(ps)
   IN
   IF gap THEN "domain:escape-gap"                      \* generator error, not a violation
+  ELSE IF r.fmt = "sm" /\ SMExtraGap(o) THEN "known:msd-gap:extra-component-hash-after-linebreak"
   ELSE IF r.serst # "ok" THEN "serialize-raised"
   ELSE IF lx.st # "ok" THEN "strict-parser-rejects-output"
   ELSE IF ~(IF r.fmt = "sm" THEN SerOK_SM(o, ps) ELSE SerOK_SSC(o, ps)) THEN "parameter-structure"
